@@ -72,6 +72,23 @@ def main():
         out.append(f"| {sid} | {files} | {db.get('check_exit')} | {' + '.join(kinds)}{' (replayed)' if rep else ''} | `{esc(first)}` |")
     out += ["", f"Detected: {n_det} of {n_all} seeds (by a named contract obligation: {n_obl}); a seed that is reported only by the "
             "bounded tier touches code that is outside the verified subset (see the level notes) and is counted as bounded, not proved.", ""]
+    res = os.path.join(V, "selftest", "benign", "RESULTS.txt")
+    if os.path.exists(res):
+        lines = [l for l in open(res).read().splitlines() if l.strip()]
+        n0 = sum(" exit=0 " in l for l in lines)
+        n2 = sum(" exit=2 " in l for l in lines)
+        n1 = sum(" exit=1 " in l for l in lines)
+        out += ["### 12.5 Behaviour-preserving changes (false-alarm probe)", "",
+                "A further sub-agent (same isolation) wrote 16 harmless refactorings of functions under contract (renamed locals, reordered "
+                "independent statements, algebraically identical expressions, introduced / inlined temporaries, swapped if/else with the negated "
+                "condition, loop <-> comprehension, hoisted invariants, comments); kept in `selftest/benign/B*/`. `selftest/benign_probe.sh` runs, "
+                "for each, the quick check of every property with a contract on the changed file against a scratch worktree.",
+                "",
+                f"Result of the last run ({len(lines)} check runs): exit 0: {n0}, exit 2 (undecided, no alarm): {n2}, exit 1 / VIOLATION (would be a "
+                f"false alarm): {n1}. The exit-2 cases are the two structural refactorings (an append loop turned into a comprehension and "
+                "back): invariants are attached to loop ordinals, so the contract has to be updated with such a change -- the check says "
+                "`MISSING obligation that was proved on the baseline tree` / `no invariant`, never `VIOLATION`. A renamed local that an "
+                "invariant mentions gives exit 2 with `contract refers to a name the function does not have`.", ""]
     open(os.path.join(V, "DESIGN.md"), "w").write(d + "\n".join(out) + "\n")
 
 
